@@ -68,11 +68,21 @@ func TestMain(m *testing.M) {
 			"generators (Write sizes at 65518/65519/65520/65535/65536/2*65519(+1) etc., so that the security layer emits its largest frame in one Write); both directions concurrently, no deadlines or pauses (real time). Oracle as above; "+
 			"without a half-close each reader stops at the payload length, then the dialer's end is closed and the other end must see the end of the stream without a further byte. Labels ws:message>64KiB (some Write makes the layer emit a "+
 			"single message above 64 KiB: Noise Write >= 65519, pnet Write > 65536), ws:Write>=full-frame-of-the-layer, ws:stream-Write>=full-yamux-frame are derived from the plan. "+
+			"TRUNCATION / CUT POSITION (a reader is never told that a stream ended normally when bytes that Write had accepted were lost in transit): a truncate case (2 of 8-10 tamper cases, Noise and TLS) ends the byte stream "+
+			"under the session with a FIN, no error underneath, after all earlier frames and a drawn number of bytes of a drawn frame of any Write: 0 (between two frames), 1 / a drawn number / all but the last byte of the length prefix or record header, "+
+			"the complete prefix and no body byte, 1 / a drawn number of body bytes, everything but the 16-byte tag, a tag short by 1-15 bytes, everything but the last byte; with every read-buffer plan and short-read pattern of the connection underneath "+
+			"(including EOF reported together with the last bytes). Rule: when the cut lies strictly inside a frame (inside the prefix, after the complete prefix, inside the body) the first error the reader gets must not be io.EOF (io.ReadAll would return nil); "+
+			"a cut exactly between two frames is the byte sequence of an orderly close and may be reported either way. Labels cut:* (drawn class), cut-lies:* (where the byte offset really fell), cut-verdict:*, cut-reader-saw:*. "+
+			"TestL12OverWebsocketPathCut (real loopback TCP) does the same over the real WebSocket transport with Noise (3/4) and TLS (1/4): a TCP proxy between Dial and the transport's listener forwards both directions faithfully, parses the WebSocket frames "+
+			"(masked/unmasked, fragmented), and after the security handshake delivers k more complete messages (k drawn below the number of frames the payload makes, so at least one frame is lost) of one drawn direction, then 0 bytes (exactly at a message boundary, "+
+			"half of the cases) or 1 byte / the 2-byte frame header / a drawn number of bytes / all but the last 1-4 bytes of the next message, then ends that TCP stream with a FIN (no WebSocket close frame) and swallows the rest; the writer's Writes all succeed. "+
+			"A TCP stream that ends without a close frame is visibly cut short at every position, so here the rule has no exception: the reader gets only a prefix, at most the plaintext of the messages that arrived whole (sizes measured by the proxy), "+
+			"and its first error is not io.EOF. Labels ws-cut:*, ws-cut-dir:*. "+
 			"DISTINCT = distinct structured plan (lengths, splits, read specs, chunk patterns, capacity, tamper, deadline schedule, idle periods, handler style, negotiation timeout, transport).",
 		"the in-memory pipe (internal/memnet) and the chunking wrapper deliver bytes faithfully; they are checked by the same oracle in the pnet layer where nothing else could repair an error",
 		"frame sizes of each layer (Noise 65519, TLS 16384, yamux 65524) are used only to aim the generator and to label cases, never in the verdict of untampered cases",
 		"tamper verdicts rely on the wire framing (Noise: 2-byte length prefix, 16-byte tag; TLS 1.3: 5-byte header, 17 bytes overhead) to locate the first tampered frame's plaintext offset (an upper bound for TLS)",
-		"a truncation that removes whole trailing frames is reported to the reader as plain EOF by Noise and TLS-at-record-boundary; EOF counts as the error the statement asks for",
+		"a truncation that removes whole trailing frames over a plain byte pipe is the byte sequence of an orderly close (Noise has no close message, TLS accepts EOF at a record boundary): there, and only there, io.EOF counts as the error the statement asks for; at every other cut position, and at every cut position of a WebSocket connection that ends without a close frame, io.EOF is a violation",
 		"the WebSocket tests use real loopback sockets: a connection on 127.0.0.1 neither loses nor damages bytes by itself; a set-up failure or a stall of 3 real minutes is inconclusive, never a violation; if the transport cannot listen on loopback the tests are skipped and labelled config-unavailable:websocket; their labels and non-trivial verdicts are computed from the plan only, so the evidence does not depend on socket timing",
 		"L6 (real loopback sockets: TCP, WebSocket, QUIC, WebTransport, WebRTC-direct, and TCP/WS behind the shared TCP listener) runs in the thorough tier only, with the default stack of each transport; a configuration that cannot be set up in the environment is skipped and labelled config-unavailable",
 		"streams of one muxed connection are accepted in the order in which their first frames were sent (L4, L5 upgrader); host-level layers route streams by protocol id instead",
@@ -843,10 +853,88 @@ const (
 
 var pcNames = [...]string{"hdr-first", "hdr-last", "hdr-mid", "body-first", "body-mid", "tag-first", "last"}
 
+// CUT POSITION of a truncation: the byte stream underneath the session ends (FIN, no error)
+// after a drawn number of bytes of frame Frame; the frames before it are delivered whole.
+// The classes aim the draw; the verdict uses the byte offset the cut really has (cutClass).
+const (
+	tcBoundary     = iota // 0 bytes of the frame: whole trailing frames are missing
+	tcPrefixOne           // 1 byte of the header
+	tcPrefixShort         // a drawn number 1..hdr-1 of header bytes
+	tcPrefixLast          // the whole header but its last byte
+	tcAfterPrefix         // the complete header, no body byte
+	tcBodyOne             // header + 1 body byte
+	tcBodyMid             // header + a drawn number 1..body-1 of body bytes
+	tcTagMissing          // everything but the last 16 bytes (Noise: the whole ciphertext, no tag byte)
+	tcTagShort            // a drawn number 1..15 of the last 16 bytes is missing ("only the tag is short")
+	tcLastMissing         // everything but the last byte
+	tcCount
+)
+
+var tcNames = [...]string{"frame-boundary", "prefix:1-byte", "prefix:drawn", "prefix:last-byte-missing", "after-prefix:0-body-bytes",
+	"body:1-byte", "body:drawn", "body:tag-missing", "body:tag-short", "body:last-byte-missing"}
+
+// where a cut of cut bytes into a frame of flen bytes (hdr of them header) lies
+const (
+	cutAtBoundary   = iota // the stream ends between two frames: the same bytes as a close by the writer
+	cutInPrefix            // inside the length prefix / record header
+	cutAfterPrefix         // the header is complete and announces a body of which nothing arrives
+	cutInBody              // 1 .. len-1 body bytes arrive
+	cutNothingLost         // (not generated) the whole frame was delivered
+)
+
+var cutClassNames = [...]string{"at-frame-boundary", "inside-prefix", "after-complete-prefix", "inside-body", "nothing-lost"}
+
+func cutClass(cut, hdr, flen int) int {
+	switch {
+	case cut <= 0:
+		return cutAtBoundary
+	case cut < hdr:
+		return cutInPrefix
+	case cut == hdr && flen > hdr:
+		return cutAfterPrefix
+	case cut < flen:
+		return cutInBody
+	}
+	return cutNothingLost
+}
+
+// cutOffset turns a cut class into a byte count 0..flen-1 for a frame of flen bytes.
+func cutOffset(class int, rnd uint64, hdr, flen int) int {
+	body := flen - hdr
+	cut := 0
+	switch class {
+	case tcBoundary:
+		cut = 0
+	case tcPrefixOne:
+		cut = 1
+	case tcPrefixShort:
+		cut = 1 + int(rnd%uint64(max(1, hdr-1)))
+	case tcPrefixLast:
+		cut = hdr - 1
+	case tcAfterPrefix:
+		cut = hdr
+	case tcBodyOne:
+		cut = hdr + 1
+	case tcBodyMid:
+		cut = hdr + 1 + int(rnd%uint64(max(1, body-1)))
+	case tcTagMissing:
+		cut = flen - 16
+	case tcTagShort:
+		cut = flen - 1 - int(rnd%15)
+	default:
+		cut = flen - 1
+	}
+	if class >= tcBodyOne {
+		cut = max(cut, hdr+1)
+	}
+	return max(0, min(cut, flen-1))
+}
+
 type tamperPlan struct {
 	Op    int
 	Frame int
-	Pos   int    // position class (flip) / cut class (truncate)
+	Pos   int    // position class (flip)
+	Cut   int    // cut class (truncate)
 	Mask  byte   // flip mask, non-zero
 	Rand  uint64 // position inside the body / forged bytes
 }
@@ -854,6 +942,9 @@ type tamperPlan struct {
 func (t tamperPlan) String() string {
 	if t.Op == tNone {
 		return "none"
+	}
+	if t.Op == tTrunc {
+		return fmt.Sprintf("trunc@%d/%s/%x", t.Frame, tcNames[t.Cut], t.Rand&0xffff)
 	}
 	return fmt.Sprintf("%s@%d/%s/%02x/%x", tamperNames[t.Op], t.Frame, pcNames[t.Pos], t.Mask, t.Rand&0xffff)
 }
@@ -874,6 +965,8 @@ type tamperConn struct {
 	dead        bool
 	applied     bool
 	offset      int // plaintext offset of the first tampered frame (upper bound)
+	cutBytes    int // truncate: bytes of the cut frame that were delivered ...
+	cutFrameLen int // ... of this many
 	closeWrite  func()
 }
 
@@ -970,23 +1063,8 @@ func (t *tamperConn) process(frame []byte) {
 	case tSwap:
 		t.held, t.heldOff = frame, t.plainBefore
 	case tTrunc:
-		cut := 0
-		switch t.plan.Pos {
-		case pcHdrFirst:
-			cut = 0
-		case pcHdrLast:
-			cut = t.hdr - 1
-		case pcHdrMid:
-			cut = 1
-		case pcBodyFirst:
-			cut = t.hdr
-		case pcBodyMid:
-			cut = t.pos(pcBodyMid, frame)
-		case pcTagFirst:
-			cut = max(t.hdr, len(frame)-16)
-		default:
-			cut = len(frame) - 1
-		}
+		cut := cutOffset(t.plan.Cut, t.plan.Rand, t.hdr, len(frame))
+		t.cutBytes, t.cutFrameLen = cut, len(frame)
 		t.emit(frame[:cut])
 		t.applied, t.offset = true, t.plainBefore
 		t.dead = true
@@ -1025,11 +1103,18 @@ func (t *tamperConn) result() (bool, int) {
 	return t.applied, t.offset
 }
 
+// cutResult: where the truncation fell (cutClass), once it has been applied.
+func (t *tamperConn) cutResult() (class, cut, flen int) {
+	t.mu.Lock()
+	defer t.mu.Unlock()
+	return cutClass(t.cutBytes, t.hdr, t.cutFrameLen), t.cutBytes, t.cutFrameLen
+}
+
 // drawTamper draws one edit; nframes is a lower bound on the number of frames the
 // tampered direction produces (>= 1).
 func drawTamper(rt *rapid.T, nframes int) tamperPlan {
 	var t tamperPlan
-	ops := []int{tFlip, tFlip, tFlip, tDrop, tDup, tTrunc, tInsert}
+	ops := []int{tFlip, tFlip, tFlip, tDrop, tDup, tTrunc, tTrunc, tInsert}
 	if nframes >= 2 {
 		ops = append(ops, tSwap, tSwap)
 	}
@@ -1042,6 +1127,9 @@ func drawTamper(rt *rapid.T, nframes int) tamperPlan {
 	t.Pos = rapid.IntRange(0, pcCount-1).Draw(rt, "tamper-pos")
 	t.Mask = byte(rapid.IntRange(1, 255).Draw(rt, "tamper-mask"))
 	t.Rand = rapid.Uint64().Draw(rt, "tamper-rand")
+	if t.Op == tTrunc {
+		t.Cut = rapid.IntRange(0, tcCount-1).Draw(rt, "tamper-cut")
+	}
 	return t
 }
 
